@@ -343,6 +343,14 @@ found:
         return ret;
     }
 
+    /* The upvalue instructions can only address the first 256 slots of an environment.
+     * Capturing a local that lives in a higher register would silently read and write
+     * a different slot, so reject it. */
+    if (ret.index > 0xFF) {
+        janetc_cerror(c, "cannot capture local in closure, too many locals in enclosing function");
+        return janetc_cslot(janet_wrap_nil());
+    }
+
     /* non-local scope needs to expose its environment */
     JanetScope *original_scope = scope;
     pair->keep = 1;
